@@ -141,9 +141,18 @@ def target_ok(ip, st, m, t):
     return as_value("bool", tm.Or(*parts))
 
 
+def root_key_of(st, root):
+    """the key of a root of trust: the key its constructor parsed (HSMCertificateRoot.pubkey)"""
+    if isinstance(root, Obj) and root.cls.name == "HSMCertificateRoot":
+        pk = st.fields(root).get("pubkey")
+        if isinstance(pk, Opaque) and pk.tag == "secp_pub":
+            return pk.attrs["key"]
+    raise Unsupported("not a root of trust with a parsed key: %r" % (root,))
+
+
 def keyterm(st, certifier):
     if isinstance(certifier, Obj) and certifier.cls.name == "HSMCertificateRoot":
-        return (tm.TRUE, root_key())
+        return (tm.TRUE, root_key_of(st, certifier))
     f = elem_fields(st, certifier)
     return pubkey_of(value_term(f["name"], f["message"]))
 
@@ -154,20 +163,20 @@ def link_ok(ip, st, element, certifier):
     return as_value("bool", link_valid(f["message"], f["signature"], f["has_tweak"], f["tweak"], keyterm(st, certifier)))
 
 
-def verdict_terms(ent, n, fuel):
-    """(all links from the root down to n verify, name of the first failing element from the root)"""
+def verdict_terms(ent, n, fuel, rk):
+    """(all links from the root key rk down to n verify, name of the first failing element from the root)"""
     p, f = ent[n]
 
     def link(key):
         return link_valid(f["message"], f["signature"], f["has_tweak"], f["tweak"], key)
-    top = link((tm.TRUE, root_key()))
+    top = link((tm.TRUE, rk))
     ok, fail = top, tm.Ite(top, tm.Str(""), tm.Str(n))
     if fuel > 0:
         for m in ent:
             if m == n:
                 continue
             cond = sb_is(f["signed_by"], m)
-            okm, failm = verdict_terms(ent, m, fuel - 1)
+            okm, failm = verdict_terms(ent, m, fuel - 1, rk)
             pm, fm = ent[m]
             lk = link(pubkey_of(value_term(fm["name"], fm["message"])))
             ok = tm.Ite(cond, tm.And(okm, lk), ok)
@@ -176,13 +185,14 @@ def verdict_terms(ent, n, fuel):
 
 
 @native
-def verdict_of(ip, st, m, t):
+def verdict_of(ip, st, m, t, root):
     """(valid, failing element name, value, has_tweak, tweak) the specification assigns to target t"""
     ent = entries(st, m)
+    rk = root_key_of(st, root)
     ok, fail, val, ht, tw = tm.FALSE, tm.Str(""), tm.Str(""), tm.FALSE, tm.Str("")
     for n in ent:
         c = sb_is(t, n)
-        okn, failn = verdict_terms(ent, n, len(ent) - 1)
+        okn, failn = verdict_terms(ent, n, len(ent) - 1, rk)
         p, f = ent[n]
         ok = tm.Ite(c, okn, ok)
         fail = tm.Ite(c, failn, fail)
@@ -233,16 +243,17 @@ def tuple_matches(st, val, spec):
     return tm.Ite(bt, pos, neg)
 
 
-def verdict_for(ent, n):
-    okn, failn = verdict_terms(ent, n, len(ent) - 1)
+def verdict_for(ent, n, rk):
+    okn, failn = verdict_terms(ent, n, len(ent) - 1, rk)
     p, f = ent[n]
     return (okn, failn, value_term(f["name"], f["message"]), f["has_tweak"], f["tweak"])
 
 
 @native
-def results_wf(ip, st, res, m):
+def results_wf(ip, st, res, m, root):
     """every entry of the result map is the verdict the specification assigns to the element of that name"""
     ent = entries(st, m)
+    rk = root_key_of(st, root)
     conj = []
     if isinstance(res, FiniteMap):
         items = [(k, p, v) for k, (p, v) in st.cell(res.oid).items()]
@@ -254,7 +265,8 @@ def results_wf(ip, st, res, m):
         if k not in ent:
             conj.append(tm.Not(p))
             continue
-        conj.append(tm.Implies(p, tuple_matches(st, v, verdict_for(ent, k))))
+        # (a verdict is only ever stored for a name looked up in the element map)
+        conj.append(tm.Implies(p, tm.And(ent[k][0], tuple_matches(st, v, verdict_for(ent, k, rk)))))
     return as_value("bool", tm.And(*conj))
 
 
@@ -365,3 +377,21 @@ def _register_crypto():
 
 _register_crypto()
 ROOT_PUBKEY = Opaque("secp_pub", dict(key=root_key()))
+
+
+@native
+def chain_valid(ip, st, m, name, root):
+    """the specification's verdict for the element `name` (a str constant): every link from the root key down verifies"""
+    ent = entries(st, m)
+    if name not in ent:
+        return False
+    p, f = ent[name]
+    return as_value("bool", tm.And(p, verdict_for(ent, name, root_key_of(st, root))[0]))
+
+
+@native
+def signed_message(ip, st, m, name):
+    """the bytes the verdict reports for `name`: the designated part of its signed message"""
+    ent = entries(st, m)
+    p, f = ent[name]
+    return as_value("bytes", V.unhex(value_term(f["name"], f["message"])))
